@@ -558,7 +558,8 @@ impl Circle2 {
             // where we re-frame the problem as the point-to-circle tangent problem.
             let proxy = Circle2::new(other.x(), other.y(), other.r() - self.r());
             // p0 is in the negative half space and p1 is in the positive half space
-            let (p0, p1) = proxy.tangent_points_to(&self.center).unwrap();
+            // There are no outer tangents when this circle lies inside the other one
+            let (p0, p1) = proxy.tangent_points_to(&self.center)?;
             let s0 = Segment2::try_new(self.center, p0).unwrap();
             let s1 = Segment2::try_new(self.center, p1).unwrap();
 
